@@ -215,17 +215,15 @@ var rePix = regexp.MustCompile(`^\d+x\d+$`)
 var rePeek = regexp.MustCompile(`^m=([0-9a-f]{8})_co=(\d+)$`)
 
 // stdHistory runs one script and turns the answer into op lines + oracle verdicts.
-func stdHistory(rng *hlib.Rand, d *cdrv.Driver, c *stdCodec, ms []*methodInfo, sizeof int, input []byte, idx int) *histOut {
-	h := &histOut{counts: map[string]int{}}
-	items := genScript(rng, c, len(input))
+// slot: token indexes of one script item (and of the peek / cs that follow a call)
+type slot struct{ item, peek, cs int }
+
+// buildScript turns items into the proto script: `peek` (+ `cs`) at the start and after every call item.
+func buildScript(c *stdCodec, items []sitem) (script []string, slots []slot, fill int) {
 	isImg := c.kind == 'I'
-	// the proto script: `peek` (+ `cs`) at the start and after every call item
-	var script []string
-	type slot struct{ item, peek, cs int } // token indexes
-	slots := make([]slot, len(items))
+	slots = make([]slot, len(items))
 	tok := 0
 	push := func(s string) int { script = append(script, s); tok++; return tok - 1 }
-	fill := 0
 	push("peek")
 	if isImg {
 		push("cs")
@@ -247,6 +245,22 @@ func stdHistory(rng *hlib.Rand, d *cdrv.Driver, c *stdCodec, ms []*methodInfo, s
 			}
 		}
 	}
+	return
+}
+
+// stdHistory runs one script and turns the answer into op lines + oracle verdicts.
+func stdHistory(rng *hlib.Rand, d *cdrv.Driver, c *stdCodec, ms []*methodInfo, sizeof int, input []byte, idx int) *histOut {
+	h := &histOut{counts: map[string]int{}}
+	var items []sitem
+	if c.kind == 'I' && rng.Chance(2, 3) {
+		items = genGuided(rng, d, c, input)
+		h.count("std:guided-image-histories")
+	} else {
+		items = genScript(rng, c, len(input))
+	}
+	isImg := c.kind == 'I'
+	script, slots, fill := buildScript(c, items)
+	tok := len(script)
 	cmd := "proto " + c.name + " " + strings.Join(script, ";") + " " + hlib.Hex(input)
 	replay := fmt.Sprintf("std history %d (send to the cdrv driver, plain-gcc):\n%s", idx, cmd)
 	line, err := d.Run(cmd)
